@@ -54,6 +54,12 @@ fn generated(kind: &str, n: usize) -> String {
             let terms: Vec<String> = (0..n).map(|i| format!("A.x {} {}", ["+", "-", "*", "/", "%"][i % 5], i + 1)).collect();
             s = terms.join(" + ");
         }
+        "mixnest" | "mixnestbad" => {
+            // n bracket levels, each mixing || and && without brackets; the innermost condition is well formed or a bare field
+            let d = n.min(32);
+            let inner = if kind == "mixnest" { "A.z == 3" } else { "A.flag" };
+            s = format!("rule \"R\" {{ when {}{}{} then A.y = 2; }}", "A.x > 1 || B.t > 100 && ( ".repeat(d), inner, " )".repeat(d));
+        }
         "manyattrs" => s = format!("rule \"R\" {} {{ when A.x > 1 then A.y = 2; }}", "salience 1 no-loop true lock-on-active true agenda-group \"g\" ".repeat(n)),
         _ => {
             // querychain: a query block whose goal is a long conjunction / disjunction, and a nested WHERE chain
